@@ -310,4 +310,141 @@ theorem iirLp_unfold (c : Cfg) (st : IIR × List Int) (xs : List Int) :
     · rfl
     · rfl
 
+theorem interpCount_zero {inc : Int} (h : 0 < inc) : interpCount 0 inc = 0 := by
+  unfold interpCount
+  have : (0 + inc - 1) / inc = 0 := Int.ediv_eq_zero_of_lt (by omega) (by omega)
+  rw [this]; rfl
+
+theorem iirRd_nil (c : Cfg) (hinv : 0 < c.invRatio) (st : IIR × List Int) : iirRd c st [] = .ok (st, []) := by
+  unfold iirRd
+  by_cases h8 : st.2.length = 8
+  · rw [if_pos h8]
+    simp only [up2hq, List.append_nil, List.length_nil]
+    rw [if_neg (by rw [h8]; simp only [orderFir12]; omega)]
+    have hl : lshift32 ((0 : Nat) : Int) 17 = 0 := by decide
+    rw [hl]
+    unfold interpol
+    rw [if_neg (by omega), interpCount_zero hinv]
+    simp only [List.range_zero, mapRes, Res.bind]
+    rw [window_ok (by omega) (by simp only [orderFir12]; omega)]
+    simp only [Res.bind]
+    have : (st.2.drop (2 * ((0 : Nat) : Int)).toNat).take orderFir12 = st.2 := by
+      simp only [orderFir12]
+      exact List.take_of_length_le (by simp; omega)
+    rw [this]
+  · rw [if_neg h8]
+
+theorem iirRd_split (c : Cfg) (hfn : c.fn = useIIRFIR) (hpf : iirPartFacts c = true) (hinv : 0 < c.invRatio)
+    (hB : c.batchSize = 10 * c.fsIn) (hfs48 : c.fsIn ≤ 48)
+    (st : IIR × List Int) (x y : List Int) (r : Nat) (hx : x.length = c.fsIn) (hy : y.length = r * c.fsIn)
+    (hr : r + 1 ≤ 10) :
+    iirRd c st (x ++ y) = seq2 (iirRd c st x) (fun s1 => iirRd c s1 y) := by
+  rcases Nat.decEq st.2.length 8 with h8 | h8
+  · unfold iirRd seq2
+    rw [if_neg h8, if_neg h8]
+    simp only [Res.bind]
+    rw [if_neg h8]
+    rfl
+  simp only [iirPartFacts, Bool.or_eq_true, Bool.and_eq_true, bne_iff_ne, ne_eq, List.all_eq_true, List.mem_range,
+    beq_iff_eq] at hpf
+  obtain ⟨hcnt, hidx⟩ := hpf.resolve_left (fun h => h hfn)
+  have hrf : r * c.fsIn + c.fsIn ≤ 10 * c.fsIn := by
+    have := Nat.mul_le_mul_right c.fsIn hr; rw [Nat.add_mul, Nat.one_mul] at this; exact this
+  have hU1 : (up2hq st.1 x).2.length = 2 * c.fsIn := by rw [up2hq_len, hx]
+  have hU2 : (up2hq (up2hq st.1 x).1 y).2.length = 2 * (r * c.fsIn) := by rw [up2hq_len, hy]
+  -- lengths as shifts
+  have hm1 := lshift32_small (n := c.fsIn) (s := 17) (Or.inr rfl) (by omega)
+  have hm2 := lshift32_small (n := r * c.fsIn) (s := 17) (Or.inr rfl) (by omega)
+  have hm12 := lshift32_small (n := c.fsIn + r * c.fsIn) (s := 17) (Or.inr rfl) (by omega)
+  have hsum : lshift32 (((x ++ y).length : Nat) : Int) 17 =
+      lshift32 ((c.fsIn : Nat) : Int) 17 + lshift32 ((r * c.fsIn : Nat) : Int) 17 := by
+    rw [List.length_append, hx, hy, hm1, hm2, hm12]; omega
+  have hc1 : interpCount (lshift32 ((c.fsIn : Nat) : Int) 17) c.invRatio = c.fsOut := by
+    have := hcnt 1 (by omega); simpa using this
+  have hc2 : interpCount (lshift32 ((r * c.fsIn : Nat) : Int) 17) c.invRatio = r * c.fsOut := hcnt r (by omega)
+  have hc12 : interpCount (lshift32 ((c.fsIn : Nat) : Int) 17 + lshift32 ((r * c.fsIn : Nat) : Int) 17) c.invRatio =
+      c.fsOut + r * c.fsOut := by
+    have h := hcnt (r + 1) (by omega)
+    have e : (r + 1) * c.fsIn = c.fsIn + r * c.fsIn := by rw [Nat.add_mul, Nat.one_mul, Nat.add_comm]
+    have e' : (r + 1) * c.fsOut = c.fsOut + r * c.fsOut := by rw [Nat.add_mul, Nat.one_mul, Nat.add_comm]
+    rw [e, e'] at h
+    have hs : lshift32 ((c.fsIn + r * c.fsIn : Nat) : Int) 17 =
+        lshift32 ((c.fsIn : Nat) : Int) 17 + lshift32 ((r * c.fsIn : Nat) : Int) 17 := by
+      rw [hm1, hm2, hm12]; omega
+    rw [← hs]; exact h
+  -- the three buffers
+  let B1 := st.2 ++ (up2hq st.1 x).2
+  let h1 := B1.drop (2 * c.fsIn)
+  have hB1 : B1.length = 8 + 2 * c.fsIn := by simp only [B1, List.length_append, h8, hU1]
+  have hh1 : h1.length = 8 := by simp only [h1, List.length_drop, hB1]; omega
+  have hbuf : st.2 ++ ((up2hq st.1 x).2 ++ (up2hq (up2hq st.1 x).1 y).2) = B1 ++ (up2hq (up2hq st.1 x).1 y).2 := by
+    simp only [B1, List.append_assoc]
+  have hdrop : (B1 ++ (up2hq (up2hq st.1 x).1 y).2).drop (2 * c.fsIn) = h1 ++ (up2hq (up2hq st.1 x).1 y).2 :=
+    List.drop_append_of_le_length (by omega)
+  -- A: the interpolation splits
+  have hA := interpol_split (iirFirSample (B1 ++ (up2hq (up2hq st.1 x).1 y).2)) (iirFirSample B1)
+    (iirFirSample (h1 ++ (up2hq (up2hq st.1 x).1 y).2))
+    (lshift32 ((c.fsIn : Nat) : Int) 17) (lshift32 ((r * c.fsIn : Nat) : Int) 17) c.invRatio hinv
+    (by rw [hc12, hc1, hc2])
+    (by
+      intro i hi
+      have hlt := idx_lt_max hinv hi
+      rw [hm1] at hlt
+      have h0 : 0 ≤ (i : Int) * c.invRatio := Int.mul_nonneg (Int.natCast_nonneg i) (Int.le_of_lt hinv)
+      unfold iirFirSample
+      rw [window_append_left (Int.ediv_nonneg h0 (by omega)) (by rw [hB1]; omega)])
+    (by
+      intro i hi
+      rw [hc1]
+      rw [hc2] at hi
+      have hi9 : i < 9 * c.fsOut := by
+        have : r * c.fsOut ≤ 9 * c.fsOut := Nat.mul_le_mul_right _ (by omega)
+        omega
+      obtain ⟨e1, e2⟩ := hidx i hi9
+      have h0 : 0 ≤ (i : Int) * c.invRatio := Int.mul_nonneg (Int.natCast_nonneg i) (Int.le_of_lt hinv)
+      unfold iirFirSample
+      rw [e1, e2, window_drop (Int.ediv_nonneg h0 (by omega)) (by rw [List.length_append, hB1]; omega), hdrop])
+  -- B: the last 8 samples
+  have hBw : window (B1 ++ (up2hq (up2hq st.1 x).1 y).2) (2 * (((x ++ y).length : Nat) : Int)) orderFir12 =
+      window (h1 ++ (up2hq (up2hq st.1 x).1 y).2) (2 * ((y.length : Nat) : Int)) orderFir12 := by
+    have e : 2 * (((x ++ y).length : Nat) : Int) = ((2 * c.fsIn : Nat) : Int) + 2 * ((y.length : Nat) : Int) := by
+      rw [List.length_append, hx]; omega
+    rw [e, window_drop (by omega) (by rw [List.length_append, hB1]; omega), hdrop]
+  -- C: the head after the first millisecond
+  have hCw : window B1 (2 * ((x.length : Nat) : Int)) orderFir12 = .ok h1 := by
+    rw [window_ok (by omega) (by rw [hB1, hx]; simp only [orderFir12]; omega)]
+    have e : (2 * ((x.length : Nat) : Int)).toNat = 2 * c.fsIn := by rw [hx]; omega
+    rw [e, List.take_of_length_le (l := B1.drop (2 * c.fsIn)) (by simp only [orderFir12]; exact Nat.le_of_eq hh1)]
+  unfold iirRd seq2
+  rw [if_pos h8, if_pos h8, up2hq_append, hbuf]
+  rw [if_neg (by rw [List.length_append, hB1, hU2, hB]; simp only [orderFir12]; omega),
+    if_neg (by show ¬ (2 * c.batchSize + orderFir12 < B1.length); rw [hB1, hB]; simp only [orderFir12]; omega)]
+  rw [hsum, hA, hBw, hx, hy]
+  show _ = ((interpol (iirFirSample B1) (lshift32 ((c.fsIn : Nat) : Int) 17) c.invRatio).bind fun outs =>
+      (window B1 (2 * ((c.fsIn : Nat) : Int)) orderFir12).bind fun h' => Res.ok (((up2hq st.1 x).1, h'), outs)).bind _
+  rw [← hx, hCw, hx]
+  cases interpol (iirFirSample B1) (lshift32 ((c.fsIn : Nat) : Int) 17) c.invRatio with
+  | ok o1 =>
+    simp only [Res.bind]
+    rw [if_pos hh1, if_neg (by rw [List.length_append, hh1, hU2, hB]; simp only [orderFir12]; omega)]
+    cases interpol (iirFirSample (h1 ++ (up2hq (up2hq st.1 x).1 y).2)) (lshift32 ((r * c.fsIn : Nat) : Int) 17) c.invRatio with
+    | ok o2 =>
+      simp only [Res.bind]
+      cases window (h1 ++ (up2hq (up2hq st.1 x).1 y).2) (2 * ((r * c.fsIn : Nat) : Int)) orderFir12 <;> rfl
+    | err e => rfl
+    | oob => rfl
+    | abort => rfl
+  | err e => rfl
+  | oob => rfl
+  | abort => rfl
+
+/-- IIR_FIR loop: partition independence at whole-millisecond cuts. -/
+theorem iirLp_append (c : Cfg) (hfn : c.fn = useIIRFIR) (hpf : iirPartFacts c = true) (hinv : 0 < c.invRatio)
+    (hB : c.batchSize = 10 * c.fsIn) (hfs : 0 < c.fsIn) (hfs48 : c.fsIn ≤ 48) (kx ky : Nat) (st : IIR × List Int)
+    (x y : List Int) (hx : x.length = kx * c.fsIn) (hy : y.length = ky * c.fsIn) :
+    iirLp c st (x ++ y) = seq2 (iirLp c st x) (fun s1 => iirLp c s1 y) :=
+  loop_append (iirRd c) c.fsIn (iirRd_nil c hinv)
+    (fun st x y r hx hy hr => iirRd_split c hfn hpf hinv hB hfs48 st x y r hx hy hr)
+    (iirLp c) c.batchSize 0 (iirLp_unfold c) hfs hB hfs kx ky st x y hx hy
+
 end OpusProofs.SilkResamp
